@@ -350,6 +350,23 @@ func checkC16(c *Check) {
 				}
 			}
 			c.Req(fromCfg, "C16.R4:fresh-config", r4, p.InstrPos(newClientCall), "NewClient's config is not the result of calling configFunc in this reconnect")
+			// every attempt re-evaluates the configuration: no path returns before the configFunc call
+			// (an outcome remembered from an earlier attempt would make one failure permanent)
+			isCfgCall := func(in ssa.Instruction) bool {
+				call, ok := in.(*ssa.Call)
+				if !ok || call.Call.IsInvoke() || staticCallee(call) != nil {
+					return false
+				}
+				ap := accessPath(call.Call.Value)
+				return len(ap.Fields) == 1 && ap.Fields[0].Name() == "configFunc"
+			}
+			if exits := exitsReachableAvoiding(reconnect, nil, isCfgCall); fromCfg {
+				pos := p.Pos(reconnect.Pos())
+				if len(exits) > 0 {
+					pos = p.InstrPos(exits[0])
+				}
+				c.Req(len(exits) == 0, "C16.R4:config-evaluated-on-every-attempt", r4, pos, "a path through reconnect returns without evaluating configFunc: the result of an earlier attempt decides this one, so a client that failed once never reconnects although the configuration is valid again")
+			}
 			errv := extractOf(newClientCall, 2)
 			okEdge := func(cond ssa.Value, pol bool) bool {
 				x, isNil, ok := nilTest(cond, pol)
